@@ -43,8 +43,14 @@ pub mod g {
     use crate::chess::piece::{Piece, PieceKind, PromotionPieceKind};
     use crate::chess::player::Player;
     use crate::chess::san;
-    use crate::chess::square::squares;
     pub use crate::verif_support::gsq::Square;
+    /// the `squares` helpers: the real functions; the one that TAKES a square accepts a ghost or a real one
+    pub mod squares {
+        pub use crate::chess::square::squares::{king_start, kingside_castle_dest, kingside_rook_start, queenside_castle_dest, queenside_rook_start};
+        pub fn castle_squares<S: ::core::convert::Into<crate::chess::square::Square>>(p: crate::chess::player::Player, king_moved_to: S) -> ::core::option::Option<(crate::chess::square::Square, crate::chess::square::Square)> {
+            crate::chess::square::squares::castle_squares(p, king_moved_to.into())
+        }
+    }
     pub use crate::verif_support::gtext::{String, ToString};
 
     /// ghost carrier of a move: accessors delegate to the real Move; squares come back as ghost squares
@@ -94,17 +100,25 @@ pub mod g {
         if mv.dst().idx() > mv.src().idx() { Some((home + 7, home + 5)) } else { Some((home, home + 3)) }
     }
     impl Board {
-        pub fn piece_at(&self, s: Square) -> Option<Piece> {
+        pub fn piece_at<S: Into<Square>>(&self, s: S) -> Option<Piece> {
+            let s: Square = s.into();
             assert!(s.idx() == unsafe { EXPECT_FROM }, "only the mover's square is looked up");
             assert!(!self.is_copy || self.removed == 0, "the mover is looked up on the position before the move");
             Some(self.mover)
         }
-        pub fn remove_at(&mut self, s: Square) {
+        pub fn remove_at<S: Into<Square>>(&mut self, s: S) {
+            let s: Square = s.into();
             assert!(self.is_copy, "the caller's position must not be edited");
             self.removed |= 1u64 << s.idx();
         }
-        pub fn set_at(&mut self, s: Square, p: Piece) {
+        pub fn set_at<S: Into<Square>>(&mut self, s: S, p: Piece) {
+            let s: Square = s.into();
             assert!(self.is_copy, "the caller's position must not be edited");
+            // Board::set_at requires an EMPTY square (C02.board.set_remove): a captured piece must have been removed first
+            let mv0 = unsafe { EXPECT_MV }.unwrap();
+            if mv0.is_capture() && !mv0.is_en_passant() && s.idx() == mv0.dst().idx() && self.removed & (1u64 << s.idx()) == 0 {
+                self.placed_ok = false;
+            }
             let mv = unsafe { EXPECT_MV }.unwrap();
             let want = match mv.promotion() {
                 Some(k) => Piece::new(self.mover.player, k.piece()),
@@ -127,6 +141,9 @@ pub mod g {
             let (from, to) = (mv.src().idx(), mv.dst().idx());
             let mut must_remove = 1u64 << from;
             let mut must_place = 1u64 << to;
+            if mv.is_capture() && !mv.is_en_passant() {
+                must_remove |= 1u64 << to;
+            }
             if mv.is_en_passant() {
                 let victim = if self.mover.player == Player::White { to.wrapping_sub(8) } else { to.wrapping_add(8) } & 63;
                 must_remove |= 1u64 << victim;
